@@ -662,6 +662,9 @@ fn sentence(r: &mut Rng, sp: &SentenceParts, focus: &[char], focus_exp: u8, pos:
         push_word(&mut text, &mut n, &mut words, &f, 1);
     }
     let term = *r.pick(&[".", ".", ".", "!", "?", "", "...", "…", ".\n", ".\n\n"]);
+    // English typography: an abbreviation's own period absorbs the full stop (`... et al.`, never `et al..`, which the lexer reads
+    // as `et al` + an ellipsis of two periods — corpus/C06/edge.json keeps that text as a correspondence case)
+    let term = if text.ends_with('.') && term.starts_with('.') && !term.starts_with("...") { &term[1..] } else { term };
     push_str(&mut text, &mut n, term);
     if r.chance(1, 3) {
         if !term.ends_with('\n') {
@@ -874,6 +877,10 @@ fn replay_input(cx: &mut Ctx, rep: &mut Report, r: &mut Rng, v: &Value) {
         _ => {
             // "text": correspondence + suggestion oracle, no expectation about which words are reported
             let text = v["text"].as_str().unwrap_or("").to_string();
+            // inputs added in later phases carry "own_rng": the shared stream (and with it every generated input that follows
+            // the corpus) stays what it was
+            let mut lr = Rng::new(fnv1a64(&[chars(&text)]) ^ 0xC06_7E87);
+            let r: &mut Rng = if v["own_rng"].as_bool() == Some(true) { &mut lr } else { r };
             let dl: Vec<usize> = match v["dialect"].as_str().and_then(dialect_of) {
                 Some(d) => vec![DIALECTS.iter().position(|x| *x == d).unwrap()],
                 None => vec![0, 1, 2, 3],
@@ -1312,9 +1319,13 @@ fn items_text(its: &[SItem]) -> (Vec<char>, Vec<(usize, usize)>, Vec<(usize, usi
     (text, all, ws)
 }
 /// S case (the extracted sent_ok / sent_text / sent_words against the harness's classification and the implementation's
-/// Word tokens), the theorem C06_sentence_tokens on the implementation (one token per item, the Word tokens are the word
-/// items), and C06 itself on the sentence: an unlisted word item is reported with exactly its span, a listed one is not
-fn sentence_items_case(cx: &mut Ctx, rep: &mut Report, r: &mut Rng, its: &[SItem], what: &str, lint: bool) -> bool {
+/// token vector and Word tokens), the theorem C06_sentence_tokens on the implementation (the Word tokens are the word
+/// items: oracle sentence_tokens_differ; one token per item: the S case), and C06 itself on the sentence: an unlisted word item is reported with exactly its span, a listed one is not
+fn sentence_items_case(cx: &mut Ctx, rep: &mut Report, _shared: &mut Rng, its: &[SItem], what: &str, lint: bool) -> bool {
+    // randomness local to the case (seeded by the text): the shared stream of the older generators is not advanced, so their
+    // inputs are the ones of the earlier phases for the same seed
+    let mut lr = Rng::new(fnv1a64(&[items_text(its).0]) ^ 0xC06_5E17);
+    let r = &mut lr;
     rep.eval();
     let ok = items_ok_rs(its);
     let (text, spans, wspans) = items_text(its);
@@ -1340,10 +1351,13 @@ fn sentence_items_case(cx: &mut Ctx, rep: &mut Report, r: &mut Rng, its: &[SItem
         }
     };
     let iw: Vec<(usize, usize)> = toks.iter().filter(|t| t.2).map(|t| (t.0, t.1)).collect();
-    rep.case(&line, &format!("{} | {}", cps(&text), if iw.is_empty() { "-".to_string() } else { spans_str(&iw) }));
-    rep.count(&format!("sentence_items:items:{}", match its.len() { 0..=2 => "1-2", 3..=6 => "3-6", 7..=12 => "7-12", _ => "13+" }));
     let all: Vec<(usize, usize)> = toks.iter().map(|t| (t.0, t.1)).collect();
-    if all != spans || iw != wspans {
+    rep.case(&line, &format!("{} | {} | {}", cps(&text), if all.is_empty() { "-".to_string() } else { spans_str(&all) }, if iw.is_empty() { "-".to_string() } else { spans_str(&iw) }));
+    rep.count(&format!("sentence_items:items:{}", match its.len() { 0..=2 => "1-2", 3..=6 => "3-6", 7..=12 => "7-12", _ => "13+" }));
+    // the whole token vector (one token per item) is compared by the S case above (a correspondence matter: Space / punctuation
+    // tokens are outside the property); the property-relevant half of C06_sentence_tokens is an oracle: the Word tokens of the
+    // sentence are exactly its word items
+    if iw != wspans {
         rep.fail(
             "sentence_tokens_differ",
             format!("{:?} is a sentence of the class (words = letter + letters/digits, blanks, separator punctuation): one token per item {:?} with Word tokens {:?} expected, the implementation yields tokens {:?} with Word tokens {:?}", s, spans, wspans, all, iw),
@@ -1383,6 +1397,10 @@ fn sentence_items_case(cx: &mut Ctx, rep: &mut Report, r: &mut Rng, its: &[SItem
 /// a word item: listed entries of the class, their case forms, edits of them (mostly unlisted), random letter/digit bodies
 fn random_word_item(cx: &Ctx, r: &mut Rng) -> Vec<char> {
     let n = cx.words.len();
+    if r.chance(1, 12) {
+        // the words condense_latin / condense_number_suffixes / lex_plural_digit look for, here never before a period / after a number
+        return chars(*r.pick(&["etc", "vs", "et", "al", "Etc", "VS", "st", "nd", "th", "as", "is", "s", "a"]));
+    }
     for _ in 0..20 {
         let base = cx.words[r.below(n)].clone();
         if !is_body_rs(&base) {
@@ -1859,12 +1877,13 @@ fn main() {
         alnum_case(&mut cx, &mut rep, &w, "generated");
     }
     // ----- sentences of the class of C06Sentence.v: generated items, and every multi-token entry cut into items -----
+    let mut rs = Rng::new(args.seed ^ 0x5E17_E1CE_C06);
     for i in 0..args.scale(800, 30_000) {
         if i % 64 == 0 && enough(&mut rep) {
             break;
         }
-        let its = random_items(&cx, &mut r);
-        sentence_items_case(&mut cx, &mut rep, &mut r, &its, "generated", true);
+        let its = random_items(&cx, &mut rs);
+        sentence_items_case(&mut cx, &mut rep, &mut rs, &its, "generated", true);
     }
     {
         let multi: Vec<String> = cx.multi_committed.iter().cloned().collect();
